@@ -316,7 +316,7 @@ def run(ctx: core.Ctx, prop: str):
     # the variant families that matter most for the property are always generated, the others are sampled
     priority = {"C01": ("ctx_", "own_block", "comment_above"),
                 "C02": ("second_use", "twin_import", "aliased_twin", "nested_reader", "chained_assign", "aliased_import_renamed", "module_alias_renamed"),
-                "C07": ("nested_call", "twin_import", "ctx_tuple")}[prop]
+                "C07": ("nested_call", "twin_import", "ctx_tuple", "mixin_base")}[prop]
     jobs = corpus_jobs(prop) + e2e.build_jobs(rng, per_codemod=per, variants_per_seed=nv, priority=priority)
     outs = e2e.run_jobs(ctx, jobs)
     n_changed = 0
